@@ -13,6 +13,7 @@ import (
 	"path/filepath"
 	"regexp"
 	"runtime"
+	"runtime/pprof"
 	"sort"
 	"strconv"
 	"strings"
@@ -113,6 +114,14 @@ func main() {
 	seed, _ := strconv.Atoi(envOr("VERIF_SEED", "0"))
 	if *replay != "" {
 		os.Exit(doReplayCmd(id, *replay))
+	}
+	if pf := os.Getenv("SSASYM_PROF"); pf != "" {
+		f, _ := os.Create(pf)
+		pprof.StartCPUProfile(f)
+		rc := doCheck(id, *tier, *only, *verbose, *workers, seed, *noNative)
+		pprof.StopCPUProfile()
+		f.Close()
+		os.Exit(rc)
 	}
 	os.Exit(doCheck(id, *tier, *only, *verbose, *workers, seed, *noNative))
 }
